@@ -339,10 +339,10 @@ impl CreateEdge {
     fn execute(&self, exec: &mut ExecutionContext) -> Result<(), ExecutionError> {
         let source = self.source.evaluate(exec)?.into_graph_node_ref()?;
         let sink = self.sink.evaluate(exec)?.into_graph_node_ref()?;
-        let edge = match exec.graph[source].add_edge(sink) {
-            Ok(edge) | Err(edge) => edge,
-        };
-        self.add_debug_attrs(&mut edge.attributes, exec.config)?;
+        // an edge that already exists is kept as it is, including its attributes
+        if let Ok(edge) = exec.graph[source].add_edge(sink) {
+            self.add_debug_attrs(&mut edge.attributes, exec.config)?;
+        }
         Ok(())
     }
 }
